@@ -47,4 +47,16 @@ theorem writer_pac_decodes_to_row :
 /-- bottom alignment keeps every row within 1–15 for 1–15 laid-out lines -/
 theorem rows_1_15 (n i : Nat) (hn : 1 ≤ n) (hn' : n ≤ 15) (hi : i < n) : 1 ≤ 16 - n + i ∧ 16 - n + i ≤ 15 := by omega
 
+/-- **C17 (same words).** every character the writer can encode is decoded by the reader's tables as that character:
+    basic characters by the one-byte table, special and extended characters by their two-byte tables -/
+theorem writer_chars_decode_back :
+    Generated.Scc.charToCode.all (fun e => character e.2 == some e.1) = true ∧
+    Generated.Scc.specialOrExtendedToCode.all (fun e => (special e.2 == some e.1) || (extended e.2 == some e.1)) = true := by
+  refine ⟨?_, ?_⟩ <;> decide +kernel
+
+/-- no two characters share a code, so a written code cannot be read as another character -/
+theorem writer_codes_injective :
+    (Generated.Scc.charToCode.map (·.2)).Nodup ∧ (Generated.Scc.specialOrExtendedToCode.map (·.2)).Nodup := by
+  refine ⟨?_, ?_⟩ <;> decide +kernel
+
 end PcVerif.Props.C17
